@@ -67,6 +67,9 @@ P = dict(
         reuse("C02_cmem_char", "harness/C18_mem.cpp", ["-DVF_WIDE=0"], stride=4),
         # valid use includes element types whose constructors/assignments throw: the exception-injection scenarios of C03, for their lifetime/sanitizer records
         reuse("C02_throw", "harness/C03_throw.cpp", [], shards=4),
+        # zero-size / zero-capacity instances of every container, string, view, span, array, bitset and set: every callable member, vs the std counterpart
+        Unit("C02_zero", "harness/C02_zero.cpp", flavours={"quick": ["asan-cc", "asan-nocc"], "thorough": ["asan-cc", "asan-nocc", "vg-cc", "clang14-cc"]},
+             shards={"quick": 1, "thorough": 1}),
         # over-aligned element types: alignof(owner) >= alignof(T), every reachable element address aligned, UBSan alignment check on the library's accesses
         Unit("C02_align", "harness/C02_align.cpp", defs=["-Wno-invalid-offsetof"], flavours={"quick": ["asan-cc"], "thorough": ["asan-cc", "asanO0-nocc", "clang14-cc"]},
              shards={"quick": 1, "thorough": 1}),
